@@ -866,6 +866,34 @@ func (a *FnAnalysis) Bounds() []string {
 			set[c.Desc] = true
 		}
 	}
+	// explicit two-sided slice windows of byte buffers (`b[lo:hi]`): a dropped upper bound lets a
+	// copy run past its field
+	for _, b := range a.Fn.Blocks {
+		if _, reached := a.mustIn[b]; !reached {
+			continue
+		}
+		for _, in := range b.Instrs {
+			sl, ok := in.(*ssa.Slice)
+			if !ok || sl.Low == nil || sl.High == nil {
+				continue
+			}
+			if _, lc := sl.Low.(*ssa.Const); lc {
+				if _, hc := sl.High.(*ssa.Const); hc {
+					continue
+				}
+			}
+			if a.isInduction(sl.Low) || a.isInduction(sl.High) {
+				continue
+			}
+			s := "window " + a.D.Val(sl)
+			count[s]++
+			if n := count[s]; n > 1 {
+				set[fmt.Sprintf("%s #%d", s, n)] = true
+			} else {
+				set[s] = true
+			}
+		}
+	}
 	// bounds tested inside small unexported helpers count for their callers
 	if a.depth < 2 {
 		for _, b := range a.Fn.Blocks {
